@@ -106,6 +106,9 @@ func specCompare(table []combination.Combination, a, b specKey) int {
 		return 1
 	}
 	for i := range a.tb {
+		if i >= len(b.tb) { // only when a "hand" holds the same card twice (a defect elsewhere): stay total
+			return 1
+		}
 		if a.tb[i] != b.tb[i] {
 			if a.tb[i] < b.tb[i] {
 				return -1
